@@ -1920,6 +1920,67 @@ func (e *CoreExtension) filterSort(value interface{}, args ...interface{}) (inte
 	return nil, fmt.Errorf("cannot sort %T", value)
 }
 
+// roundDecimal rounds v to the given number of decimals on its shortest decimal
+// representation, so that 1.005 rounds to 1.01 and ceil(1.1, 2) stays 1.1 (scaling the
+// binary value by a power of ten first makes both go wrong). mode is 'c' (half away
+// from zero), 'u' (towards +Inf) or 'd' (towards -Inf). The result has exactly
+// `decimals` fraction digits and never reads "-0".
+func roundDecimal(v float64, decimals int, mode byte) string {
+	negative := v < 0
+	s := strconv.FormatFloat(math.Abs(v), 'f', -1, 64)
+	intPart, frac := s, ""
+	if dot := strings.IndexByte(s, '.'); dot >= 0 {
+		intPart, frac = s[:dot], s[dot+1:]
+	}
+	digits := []byte(intPart + frac)
+	point := len(intPart)
+	keep := point + decimals
+	if len(digits) <= keep {
+		digits = append(digits, bytes.Repeat([]byte{'0'}, keep-len(digits))...)
+	} else {
+		dropped := digits[keep:]
+		digits = digits[:keep]
+		up := false
+		switch mode {
+		case 'u':
+			up = !negative && len(bytes.Trim(dropped, "0")) > 0
+		case 'd':
+			up = negative && len(bytes.Trim(dropped, "0")) > 0
+		default:
+			up = dropped[0] >= '5'
+		}
+		if up {
+			i := len(digits) - 1
+			for ; i >= 0; i-- {
+				if digits[i] != '9' {
+					digits[i]++
+					break
+				}
+				digits[i] = '0'
+			}
+			if i < 0 {
+				digits = append([]byte{'1'}, digits...)
+				point++
+			}
+		}
+	}
+	if len(bytes.Trim(digits, "0")) == 0 {
+		negative = false
+	}
+	whole := strings.TrimLeft(string(digits[:point]), "0")
+	if whole == "" {
+		whole = "0"
+	}
+	out := whole
+	if decimals > 0 {
+		out += "." + string(digits[point:])
+	}
+	if negative {
+		out = "-" + out
+	}
+	return out
+}
+
 func (e *CoreExtension) filterNumberFormat(value interface{}, args ...interface{}) (interface{}, error) {
 	num, err := toFloat64(value)
 	if err != nil {
@@ -2034,16 +2095,26 @@ func (e *CoreExtension) filterRound(value interface{}, args ...interface{}) (int
 
 	// Apply rounding
 	var result float64
+	mode := byte('c') // "common" or any other value
 	switch method {
 	case "ceil", "ceiling":
-		shift := math.Pow(10, float64(precision))
-		result = math.Ceil(num*shift) / shift
+		mode = 'u'
 	case "floor":
+		mode = 'd'
+	}
+	if precision >= 0 && !math.IsInf(num, 0) && !math.IsNaN(num) {
+		// Round the decimal representation: exact for decimal inputs
+		result, _ = strconv.ParseFloat(roundDecimal(num, precision, mode), 64)
+	} else {
 		shift := math.Pow(10, float64(precision))
-		result = math.Floor(num*shift) / shift
-	default: // "common" or any other value
-		shift := math.Pow(10, float64(precision))
-		result = math.Round(num*shift) / shift
+		switch mode {
+		case 'u':
+			result = math.Ceil(num*shift) / shift
+		case 'd':
+			result = math.Floor(num*shift) / shift
+		default:
+			result = math.Round(num*shift) / shift
+		}
 	}
 
 	// If precision is 0, return an integer
